@@ -582,7 +582,7 @@ func (w *World) writeOp(t *simcore.Task, wt *WTxn) bool {
 	wt.ops++
 	if w.bulk && w.bulkOps < 4 && c.Choose(3) == 0 {
 		w.bulkOps++
-		return w.bulkOp(wt, ti)
+		return w.bulkOp(t, wt, ti)
 	}
 	t.Op = opNames[op]
 	defer func() { t.Op = "" }()
@@ -1323,7 +1323,7 @@ func (w *World) rejectedWriteTxn(t *simcore.Task, arg []int) bool {
 // bulkOp inserts several thousand bare objects with keys outside the usual universe, or, when they are
 // there, deletes them all: under a lagging change iterator that is a backlog of thousands of retained
 // deletions which one collector round then has to remove.
-func (w *World) bulkOp(wt *WTxn, ti int) bool {
+func (w *World) bulkOp(t *simcore.Task, wt *WTxn, ti int) bool {
 	tc := w.tables[ti]
 	st := wt.staged[ti]
 	var present []string
@@ -1355,6 +1355,12 @@ func (w *World) bulkOp(wt *WTxn, ti int) bool {
 		w.S.Logf("T%d bulk insert of %d objects into %s", wt.id, n, tc.M.Name)
 		w.probe("bulk-insert")
 	} else {
+		if tc.M.liveIters+len(wt.newIters) == 0 {
+			// make sure some change iterator is there to retain the deletions
+			if !w.createIterator(t, wt, ti) {
+				return false
+			}
+		}
 		for _, id := range present {
 			var gotErr error
 			var gotHad bool
